@@ -606,6 +606,9 @@ func (ps *parser) list() *Node {
 		}
 		if ps.isSym(";") {
 			ps.next()
+			if ps.isSym("]") {
+				ps.fail("list ends with a separator (a ; must be followed by an element)")
+			}
 		} else if !ps.isSym("]") {
 			ps.fail("expected ; or ] in list")
 		}
